@@ -249,6 +249,8 @@ func runC02(c *Ctx) {
 			fmt.Sprintf("operand roles do not match: receiver adds %d offered/%d known terms, argument adds %d offered/%d known terms (swapped operands invert the comparison)", rm, rk, am, ak), c.at(cmps[0]))
 	})
 
+	c.rule("C02.G3", "the branch offered for a reorganisation is internally linked: the reorg path validates and weighs every remaining header of the message but never compares PrevBlock itself; it relies on this pre-check: "+headersLinkedDoc, func() { c.headersLinked() })
+
 	c.rule("C02.V3", knownWorkDoc, func() { c.knownWorkLoop() })
 
 	c.rule("C02.V2", "the checkpoint floor is findPreviousHeaderCheckpoint(prevNode.Height) with prevNode the tail of headerList", func() {
